@@ -149,6 +149,7 @@ class Report:
             "per_rule": {rid: {"instances": sum(1 for i in decided if i.rule == rid),
                                "violations": sum(1 for i in decided if i.rule == rid and i.verdict == VIOLATION),
                                "expect_min": self.expect.get(rid, 0)} for rid in sorted(self.rules)},
+            "rule_texts": dict(sorted(self.rules.items())),
             "notes": notes,
             "known_findings_matched": nknown,
             "analysis_errors": self.errors,
